@@ -557,6 +557,8 @@ struct Outcome {
     restore_checked: bool,
     epilogue_checked: bool,
     drop_ms: u128,
+    /// situation in which the terminal was released, for the classification of findings
+    class: Option<String>,
 }
 
 enum HErr {
@@ -726,8 +728,11 @@ impl Runner {
             }
             Step::WakeInline(n) => {
                 for _ in 0..*n {
+                    // time stamps are taken BEFORE the call: an event delivered while the call is in progress may
+                    // already be the answer to it (taking them afterwards would be a race in the oracle)
+                    let at = Instant::now();
                     if self.waker.wake().is_ok() {
-                        self.wake_times.lock().unwrap().push(Instant::now());
+                        self.wake_times.lock().unwrap().push(at);
                     }
                 }
             }
@@ -743,8 +748,9 @@ impl Runner {
                             if d > 0 {
                                 std::thread::sleep(Duration::from_micros(d));
                             }
+                            let at = Instant::now();
                             if waker.wake().is_ok() {
-                                times.lock().unwrap().push(Instant::now());
+                                times.lock().unwrap().push(at);
                             }
                         }
                     }));
@@ -756,8 +762,9 @@ impl Runner {
             }
             Step::KeysSync => self.keys_sync(),
             Step::Winch => {
+                let at = Instant::now();
                 unsafe { libc::raise(libc::SIGWINCH) };
-                self.winch_times.lock().unwrap().push(Instant::now());
+                self.winch_times.lock().unwrap().push(at);
             }
             Step::WinchAsync(delay) => {
                 let target = self.session_thread;
@@ -765,8 +772,9 @@ impl Runner {
                 let delay = *delay;
                 self.helper_threads.push(std::thread::spawn(move || {
                     std::thread::sleep(Duration::from_micros(delay));
+                    let at = Instant::now();
                     unsafe { libc::pthread_kill(target, libc::SIGWINCH) };
-                    times.lock().unwrap().push(Instant::now());
+                    times.lock().unwrap().push(at);
                 }));
             }
             Step::Term(sig) => {
@@ -774,8 +782,8 @@ impl Runner {
                 let mut old: libc::sigaction = unsafe { std::mem::zeroed() };
                 unsafe { libc::sigaction(*sig, std::ptr::null(), &mut old) };
                 if old.sa_sigaction != libc::SIG_DFL && old.sa_sigaction != libc::SIG_IGN {
-                    unsafe { libc::raise(*sig) };
                     self.term_raised = Some(Instant::now());
+                    unsafe { libc::raise(*sig) };
                 } else if self.out.inconclusive.is_none() {
                     self.out.inconclusive = Some("no-handler-for-termination-signal".into());
                 }
@@ -1071,6 +1079,9 @@ fn run_session(s: &Session) -> Outcome {
     }
     let send_before = term.stats().send;
     let hung_up = r.hung_up;
+    if r.term_raised.is_some() && !r.quit_seen {
+        r.out.class = Some("termination-signal-pending-at-drop".into());
+    }
     let _ = verif_c17::take_trace();
     if panicked {
         // do not run the destructor of a terminal that panicked (it would poll again)
@@ -1272,6 +1283,9 @@ fn fixed_sessions(rng: &mut Rng) -> Vec<Session> {
         // drop with a peer that does not read (the closing sequence cannot be delivered; settings still restored)
         sess("stalled-drop", vec![PeerPause, Write(300_000, 10), Flush, ms(5)], rng.next()),
         sess("drop-immediately", vec![], rng.next()),
+        // a termination signal arrives but is not observed by a poll before the terminal is released, output pending
+        Session { drop_at: Some(5), ..sess("pendingterm-drop-with-output", vec![PeerPause, Write(200_000, 11), Flush, ms(2), Term(libc::SIGTERM)], rng.next()) },
+        Session { drop_at: Some(3), ..sess("pendingterm-drop-small-output", vec![Exec(4), Flush, Term(libc::SIGINT)], rng.next()) },
         sess("drop-with-frames", vec![Write(20, 1), Flush, Write(30, 2), Flush, Exec(0), Flush], rng.next()),
     ];
     for (k, quit) in [(1, false), (2, false), (4, false), (3, true), (99, false)] {
@@ -1427,7 +1441,11 @@ fn report(out: &mut Out, tot: &mut Totals, s: &Session, res: Result<Outcome, Str
         out.hist(&format!("inconclusive:{}", why.split(':').next().unwrap_or("?")));
     }
     for (what, exp, got) in o.failures.iter() {
-        out.fail(what, s.to_json(), json!(exp), json!(got));
+        let mut input = s.to_json();
+        if let Some(c) = &o.class {
+            input["class"] = json!(c);
+        }
+        out.fail(what, input, json!(exp), json!(got));
     }
     if o.failures.is_empty() && o.inconclusive.is_none() {
         if let Some((req, exp)) = &o.trace {
@@ -1487,7 +1505,7 @@ fn main() {
         }
     }
     let t0 = Instant::now();
-    let (target, budget) = if cfg.thorough { (20000u64, Duration::from_secs(600)) } else { (300u64, Duration::from_secs(55)) };
+    let (target, budget) = if cfg.thorough { (20000u64, Duration::from_secs(480)) } else { (300u64, Duration::from_secs(55)) };
     let mut all: Vec<Session> = fixed_sessions(&mut rng);
     let script = scripted();
     for i in 0..=script.len() {
